@@ -42,7 +42,8 @@ func corpusCases() []*JCase {
 		{T: "watch", Q: qw}, nx(3), nx(3), nx(3), nx(3),
 		{T: "snapshot"},
 	}))
-	// 3. restore while an earlier watch of the subject is not yet closed: the topic buffer survives
+	// 3. restore while an earlier watch of the subject is not yet closed: before 2bf672d the topic buffer
+	// survived and its old head was spliced after the new snapshot; RefreshTopic now drops it
 	out = append(out, runOps("sched", []JOp{
 		{T: "watch", Q: q}, nx(0),
 		{T: "write", Res: mkRes("a", "u1", "", 1)}, pub, nx(0),
